@@ -459,3 +459,59 @@ Fixpoint lookup_row (t : list (mclass * mname * body)) (c : mclass) (m : mname) 
       if Nat.eqb (mclass_code c) (mclass_code c') && Nat.eqb (mname_code m) (mname_code m')
       then Some b else lookup_row r c m
   end.
+
+(* ---------------------------------------------------------------------------
+   Interpretation of the tables the translator (harness/pC12.py) reads from the
+   source: the isinstance predicates and the type-check chain of _elementwise *)
+
+(* classes named in isinstance tests *)
+Inductive dcls := DBoolExpr | DIntExpr | DBool | DInt
+                | DBoolArray1D | DBoolArray2D | DIntArray1D | DIntArray2D.
+
+Definition isinstance (c : pycls) (d : dcls) : bool :=
+  match d, c with
+  | DBoolExpr, (PBoolExpr | PBoolVar) => true
+  | DIntExpr, (PIntExpr | PIntVar) => true
+  | DBool, PBool => true
+  | DInt, (PInt | PBool) => true               (* bool is a subclass of int *)
+  | DBoolArray1D, PArr CBoolArray1D => true
+  | DBoolArray2D, PArr CBoolArray2D => true
+  | DIntArray1D, PArr CIntArray1D => true
+  | DIntArray2D, PArr CIntArray2D => true
+  | _, _ => false
+  end.
+
+(* return isinstance(value, (pos...)) [and not isinstance(value, neg)] *)
+Record likedef := { like_pos : list dcls; like_neg : list dcls }.
+Definition like_eval (d : likedef) (c : pycls) : bool :=
+  existsb (isinstance c) (like_pos d) && negb (existsb (isinstance c) (like_neg d)).
+
+Inductive likename := LBoolLike | LIntLike.
+Definition like_fn (p : likename) : pyval -> bool :=
+  match p with LBoolLike => is_bool_like | LIntLike => is_int_like end.
+
+Inductive tcrow :=
+  | TCAll (ops : list op) (n : option nat) (p : likename)   (* [len(operands) != n or] not all(map(p, operands)) *)
+  | TCEach (ops : list op) (ps : list likename).            (* len(operands) != |ps| or not (p0(operands[0]) and ...) *)
+
+Fixpoint each_ok (ps : list likename) (ops : list pyval) : bool :=
+  match ps, ops with
+  | [], [] => true
+  | p :: ps', v :: ops' => like_fn p v && each_ok ps' ops'
+  | _, _ => false
+  end.
+
+Definition tcrow_ops (r : tcrow) : list op := match r with TCAll o _ _ | TCEach o _ => o end.
+Definition tcrow_eval (r : tcrow) (ops : list pyval) : bool :=
+  match r with
+  | TCAll _ None p => forallb (like_fn p) ops
+  | TCAll _ (Some n) p => Nat.eqb (length ops) n && forallb (like_fn p) ops
+  | TCEach _ ps => each_ok ps ops
+  end.
+
+(* the if / elif chain; falling off the end is "raise ValueError" *)
+Fixpoint tc_eval (table : list tcrow) (o : op) (ops : list pyval) : option bool :=
+  match table with
+  | [] => None
+  | r :: t => if existsb (op_eqb o) (tcrow_ops r) then Some (tcrow_eval r ops) else tc_eval t o ops
+  end.
